@@ -2,10 +2,16 @@
 // (parser/resolver argument-count check, interp.Config.Funcs validation,
 // toNative/fromNative): every (signature, argument list) exported by TLC is
 // turned into a Go function synthesised with reflect.FuncOf/MakeFunc that
-// records what it receives, the program { r = fn(args); print "R:" r } is
-// parsed and executed, and the outcome class, the received values, the
-// printed result and the identity of the returned error are compared with
-// the specification's prediction.  Everything runs under recover().
+// records what it receives; it is put into a Funcs table with three other Go
+// functions (aa, mm, zz); the program -- which may define an AWK function with
+// the name of one of the others (shadowing it) and may set CONVFMT -- calls
+// the others, prints the AWK string conversion (arg "") of every argument and
+// then runs r = fn(args); print "R:" r.  The outcome class, WHICH Go functions
+// ran and what the others returned, the received values (for string kinds the
+// string form under the CONVFMT in force; where the specification says AwkText,
+// the text the program itself printed for (arg "")), the printed result and the
+// identity of the returned error are compared with the specification's
+// prediction.  Everything runs under recover().
 package c17
 
 import (
@@ -43,13 +49,16 @@ type GoVal struct {
 
 type Pred struct {
 	Ok  bool            `json:"ok"`
+	Awk bool            `json:"awk,omitempty"` // printed text only: Native!AwkTextPrinted
 	Val json.RawMessage `json:"val"`
 }
 
 type Outcome struct {
-	O       string `json:"o"`
-	Recv    []Pred `json:"recv,omitempty"`
-	Printed *Pred  `json:"printed,omitempty"`
+	O       string   `json:"o"`
+	Recv    []Pred   `json:"recv,omitempty"`
+	Printed *Pred    `json:"printed,omitempty"`
+	Ran     []string `json:"ran,omitempty"`    // the Go functions that run, in order
+	Dlines  []string `json:"dlines,omitempty"` // what the calls aa(7), mm("q"), zz(2, 3) print
 }
 
 type Case struct {
@@ -57,7 +66,35 @@ type Case struct {
 	Sig     Sig      `json:"sig"`
 	Args    []string `json:"args"`
 	Called  bool     `json:"called"`
+	Shadow  string   `json:"shadow"` // "none" or the name of the Funcs entry that an AWK function shadows
+	Cf      string   `json:"cf"`     // CONVFMT in force (DefaultCf: not assigned)
 	Outcome Outcome  `json:"outcome"`
+}
+
+// DefaultCf is Native!DefaultCf.
+const DefaultCf = "%.6g"
+
+// Others mirrors Native!Others: the other entries of the Funcs table, the
+// call the program makes of each and their definition as an AWK function
+// when shadowed.
+var Others = []string{"aa", "mm", "zz"}
+var otherCall = map[string]string{"aa": "aa(7)", "mm": `mm("q")`, "zz": "zz(2, 3)"}
+var otherAwkDef = map[string]string{
+	"aa": `function aa(x) { return "awk:" x }`,
+	"mm": `function mm(x) { return "awk:" x }`,
+	"zz": `function zz(x, y) { return "awk:" x }`,
+}
+
+func shadowClass(sh string) string {
+	switch sh {
+	case "aa":
+		return "shadow-first"
+	case "mm":
+		return "shadow-middle"
+	case "zz":
+		return "shadow-last"
+	}
+	return "no-shadow"
 }
 
 var kindTypes = map[string]reflect.Type{
@@ -78,7 +115,7 @@ var ErrSentinel = errors.New("c17: the native function's own error")
 var valueSrc = map[string]string{
 	"three": "3", "negthree": "-3", "twohalf": "2.5", "n300": "300", "zero": "0",
 	"abc": `"abc"`, "s12": `"12"`, "s0": `"0"`, "empty": `""`, "sn12": "$1", "sn0": "$2", "unset": "u",
-	"huge": "1e30", "nan": "log(-1)",
+	"huge": "1e30", "nan": "log(-1)", "big": "1000000", "inf": "-log(0)", "neginf": "log(0)",
 }
 
 const Input = "12 0\n"
@@ -173,6 +210,8 @@ func retConst(k string) GoVal {
 type Recorder struct {
 	Calls int
 	Recv  []GoVal
+	Name  string    // appended to *Log on every call, if Log is set
+	Log   *[]string // the order in which the functions of the table ran
 }
 
 // MakeFunc synthesises the Go function of a well-shaped signature.
@@ -202,6 +241,9 @@ func MakeFunc(sig *Sig, rec *Recorder) (any, bool) {
 	ft := reflect.FuncOf(in, out, sig.Variadic)
 	fn := reflect.MakeFunc(ft, func(args []reflect.Value) []reflect.Value {
 		rec.Calls++
+		if rec.Log != nil {
+			*rec.Log = append(*rec.Log, rec.Name)
+		}
 		var first *reflect.Value
 		for i, a := range args {
 			if sig.Variadic && i == len(args)-1 {
@@ -242,15 +284,44 @@ type Observed struct {
 	Err      error
 	Panic    string // "", "parse", "execute" (before the function was entered), "call"
 	PanicV   string
-	Decoy    int
+	Ran      []string // Go functions of the table that ran, in order
+	Dlines   []string // text printed after "D:" by the calls of the other functions
+	Awk      []string // text printed after "C:": the program's own (arg "") of every argument
 	Calls    int
 	Program  string
 	ErrIsOwn bool
 }
 
-// Run executes one (sig, args) against the real code.
-func Run(sig *Sig, args []string, called bool) (*Observed, bool) {
-	rec := &Recorder{}
+// Program renders the AWK program of a case.
+func Program(sig *Sig, srcArgs []string, called bool, shadow, cf string) string {
+	var sb strings.Builder
+	if cf != "" && cf != DefaultCf {
+		fmt.Fprintf(&sb, "BEGIN { CONVFMT = %q }\n", cf)
+	}
+	if def, ok := otherAwkDef[shadow]; ok {
+		sb.WriteString(def + "\n")
+	} else {
+		sb.WriteString("function ab(x) { return x }\n")
+	}
+	if !called {
+		sb.WriteString("{ print \"R:\" }\n")
+		return sb.String()
+	}
+	sb.WriteString("{\n")
+	for _, o := range Others {
+		fmt.Fprintf(&sb, "  print \"D:\" %s\n", otherCall[o])
+	}
+	for _, a := range srcArgs {
+		fmt.Fprintf(&sb, "  print \"C:\" ((%s) \"\")\n", a)
+	}
+	fmt.Fprintf(&sb, "  r = %s(%s); print \"R:\" r\n}\n", sig.Name, strings.Join(srcArgs, ", "))
+	return sb.String()
+}
+
+// Run executes one case against the real code.
+func Run(sig *Sig, args []string, called bool, shadow, cf string) (*Observed, bool) {
+	var ran []string
+	rec := &Recorder{Name: sig.Name, Log: &ran}
 	var fn any
 	if sig.Shape == "ok" {
 		f, ok := MakeFunc(sig, rec)
@@ -265,12 +336,18 @@ func Run(sig *Sig, args []string, called bool) (*Observed, bool) {
 		}
 		fn = f
 	}
-	decoy := 0
-	funcs := map[string]any{
-		sig.Name: fn,
-		"aa":     func(x int) int { decoy++; return -1 },
-		"zz":     func(s string) string { decoy++; return "decoy" },
+	if shadow != "none" && shadow != "" {
+		if _, ok := otherAwkDef[shadow]; !ok {
+			return nil, false
+		}
 	}
+	// the other entries of the table (Native!GoResultOf)
+	funcs := map[string]any{
+		"aa": func(x int) int { ran = append(ran, "aa"); return x + 100 },
+		"mm": func(s string) string { ran = append(ran, "mm"); return s + "!" },
+		"zz": func(a, b int) int { ran = append(ran, "zz"); return 10*a + b },
+	}
+	funcs[sig.Name] = fn
 	srcArgs := make([]string, len(args))
 	for i, a := range args {
 		s, ok := valueSrc[a]
@@ -279,12 +356,7 @@ func Run(sig *Sig, args []string, called bool) (*Observed, bool) {
 		}
 		srcArgs[i] = s
 	}
-	var prog string
-	if called {
-		prog = fmt.Sprintf("function ab(x) { return x }\n{ r = %s(%s); print \"R:\" r }\n", sig.Name, strings.Join(srcArgs, ", "))
-	} else {
-		prog = "function ab(x) { return x }\n{ print \"R:\" }\n"
-	}
+	prog := Program(sig, srcArgs, called, shadow, cf)
 	ob := &Observed{Program: prog}
 	var p *parser.Program
 	var perr error
@@ -321,13 +393,20 @@ func Run(sig *Sig, args []string, called bool) (*Observed, bool) {
 		}
 		_, err = in.Execute(&interp.Config{Stdin: strings.NewReader(Input), Output: &out, Error: &out, Environ: []string{}, Funcs: funcs})
 	}()
-	ob.Recv, ob.Calls, ob.Decoy, ob.Err = rec.Recv, rec.Calls, decoy, err
+	ob.Recv, ob.Calls, ob.Ran, ob.Err = rec.Recv, rec.Calls, ran, err
+	text := out.String()
+	for _, line := range strings.Split(strings.TrimSuffix(text, "\n"), "\n") {
+		switch {
+		case strings.HasPrefix(line, "D:"):
+			ob.Dlines = append(ob.Dlines, line[2:])
+		case strings.HasPrefix(line, "C:"):
+			ob.Awk = append(ob.Awk, line[2:])
+		case strings.HasPrefix(line, "R:") && strings.HasSuffix(text, "\n"):
+			ob.HasR, ob.Printed = true, line[2:]
+		}
+	}
 	if ob.Panic != "" {
 		return ob, true
-	}
-	text := out.String()
-	if strings.HasPrefix(text, "R:") && strings.HasSuffix(text, "\n") {
-		ob.HasR, ob.Printed = true, text[2:len(text)-1]
 	}
 	switch {
 	case err != nil && rec.Calls == 0 && text == "":
@@ -363,15 +442,39 @@ func sigClass(sig *Sig) string {
 // failure signature and text, or "".
 func Compare(c *Case, ob *Observed) (string, string) {
 	cls := sigClass(&c.Sig)
+	if c.Outcome.O == "ok" || c.Outcome.O == "abort" {
+		// which Go functions ran: whatever happened later, the sequence must be a prefix of the predicted one
+		// (a panic or an error cuts it short), and the whole of it when the run got to the end
+		for i, name := range ob.Ran {
+			if i >= len(c.Outcome.Ran) || c.Outcome.Ran[i] != name {
+				what := fmt.Sprintf("the Go functions that ran are %v, the specification says %v", ob.Ran, c.Outcome.Ran)
+				if ob.Panic != "" {
+					what += " (then panic: " + ob.PanicV + ")"
+				}
+				return "C17/dispatch/wrong-function/" + shadowClass(c.Shadow), what
+			}
+		}
+	}
 	if ob.Panic != "" {
+		if c.Shadow != "none" && len(ob.Ran) < len(c.Outcome.Ran) {
+			// the run died while the calls of the table's functions were being dispatched
+			return "C17/dispatch/panic/" + shadowClass(c.Shadow), fmt.Sprintf("panic after the Go functions %v of %v had run: %s", ob.Ran, c.Outcome.Ran, ob.PanicV)
+		}
 		return "C17/panic/" + ob.Panic + "/" + cls, "panic: " + ob.PanicV
 	}
 	if ob.O != c.Outcome.O {
 		return fmt.Sprintf("C17/outcome/spec-%s-real-%s/%s", c.Outcome.O, ob.O, cls),
 			fmt.Sprintf("outcome class differs (real error: %v)", ob.Err)
 	}
-	if ob.Decoy > 0 {
-		return "C17/dispatch/wrong-function/" + cls, "another function of the Funcs table was called"
+	if c.Outcome.O == "ok" || c.Outcome.O == "abort" {
+		if len(ob.Ran) != len(c.Outcome.Ran) {
+			return "C17/dispatch/wrong-function/" + shadowClass(c.Shadow),
+				fmt.Sprintf("the Go functions that ran are %v, the specification says %v", ob.Ran, c.Outcome.Ran)
+		}
+		if strings.Join(ob.Dlines, "\n") != strings.Join(c.Outcome.Dlines, "\n") {
+			return "C17/dispatch/other-result/" + shadowClass(c.Shadow),
+				fmt.Sprintf("the calls aa(7), mm(\"q\"), zz(2, 3) printed %q, the specification says %q", ob.Dlines, c.Outcome.Dlines)
+		}
 	}
 	switch c.Outcome.O {
 	case "abort":
@@ -401,6 +504,13 @@ func Compare(c *Case, ob *Observed) (string, string) {
 			if err := json.Unmarshal(pr.Val, &want); err != nil {
 				return "HARNESS/bad-prediction", err.Error()
 			}
+			if want.K == "awk" {
+				// Native!AwkText: the text the program itself printed for (arg "")
+				if j >= len(ob.Awk) {
+					return "HARNESS/bad-prediction", "no C: line for the argument"
+				}
+				want = GoVal{K: "s", S: ob.Awk[j]}
+			}
 			if ob.Recv[j] != want {
 				kind := c.Sig.Params[len(c.Sig.Params)-1]
 				if j < len(c.Sig.Params) {
@@ -409,7 +519,11 @@ func Compare(c *Case, ob *Observed) (string, string) {
 				if j >= len(c.Args) {
 					return "C17/zero-fill/value/" + kind, fmt.Sprintf("missing argument %d: received %+v, want zero value %+v", j+1, ob.Recv[j], want)
 				}
-				return "C17/convert/arg/" + kind + "/" + c.Args[j], fmt.Sprintf("argument %d (%s as %s): received %+v, want %+v", j+1, c.Args[j], kind, ob.Recv[j], want)
+				sg := "C17/convert/arg/" + kind + "/" + c.Args[j]
+				if c.Cf != "" && c.Cf != DefaultCf {
+					sg += "/convfmt-changed"
+				}
+				return sg, fmt.Sprintf("argument %d (%s as %s, CONVFMT %s): received %+v, want %+v", j+1, c.Args[j], kind, c.Cf, ob.Recv[j], want)
 			}
 		}
 	}
@@ -418,8 +532,18 @@ func Compare(c *Case, ob *Observed) (string, string) {
 		if err := json.Unmarshal(c.Outcome.Printed.Val, &want); err != nil {
 			return "HARNESS/bad-prediction", err.Error()
 		}
+		if c.Outcome.Printed.Awk {
+			if len(ob.Awk) == 0 {
+				return "HARNESS/bad-prediction", "no C: line for the echoed argument"
+			}
+			want = ob.Awk[0] // the echoed AwkText
+		}
 		if !ob.HasR || ob.Printed != want {
-			return "C17/convert/result/" + c.Sig.Rk + "/" + c.Sig.Res, fmt.Sprintf("printed result %q, want %q", ob.Printed, want)
+			sg := "C17/convert/result/" + c.Sig.Rk + "/" + c.Sig.Res
+			if c.Cf != "" && c.Cf != DefaultCf {
+				sg += "/convfmt-changed"
+			}
+			return sg, fmt.Sprintf("printed result %q, want %q", ob.Printed, want)
 		}
 	}
 	return "", ""
@@ -431,7 +555,13 @@ func Replay(raw json.RawMessage) hx.Outcome {
 	if err := json.Unmarshal(raw, &c); err != nil || c.Outcome.O == "" {
 		return hx.Outcome{Skipped: true, Note: "bad case"}
 	}
-	ob, ok := Run(&c.Sig, c.Args, c.Called)
+	if c.Shadow == "" {
+		c.Shadow = "none"
+	}
+	if c.Cf == "" {
+		c.Cf = DefaultCf
+	}
+	ob, ok := Run(&c.Sig, c.Args, c.Called, c.Shadow, c.Cf)
 	if !ok {
 		return hx.Outcome{Skipped: true, Note: "unknown kind/shape/value"}
 	}
@@ -439,7 +569,7 @@ func Replay(raw json.RawMessage) hx.Outcome {
 		if strings.HasPrefix(sig, "HARNESS/") {
 			return hx.Outcome{Skipped: true, Note: what}
 		}
-		return hx.Fail(sig, what, c.Outcome, map[string]any{"o": ob.O, "recv": ob.Recv, "printed": ob.Printed, "err": fmt.Sprint(ob.Err)}, ob.Program)
+		return hx.Fail(sig, what, c.Outcome, map[string]any{"o": ob.O, "recv": ob.Recv, "printed": ob.Printed, "ran": ob.Ran, "dlines": ob.Dlines, "awk": ob.Awk, "err": fmt.Sprint(ob.Err)}, ob.Program)
 	}
 	return hx.OK(c.Called && (c.Outcome.O == "ok" || c.Outcome.O == "abort") && (len(c.Args) > 0 || c.Sig.Res != "none") || c.Outcome.O == "setup-error" || c.Outcome.O == "parse-error")
 }
